@@ -8,6 +8,7 @@ import (
 	"bytes"
 	"fmt"
 	"os"
+	"os/exec"
 	"runtime"
 	"sort"
 	"strconv"
@@ -514,7 +515,83 @@ func interleavings(counts []int, emit func([]int)) {
 	rec()
 }
 
+// peerMain: a second server process that takes and releases the passwd lock a few times and exits.
+func peerMain(semKey int) {
+	bbsenv.Quiet()
+	ptttype.PASSWDSEM_KEY = semKey
+	if err := cmbbs.PasswdInit(); err != nil {
+		fmt.Println("peer: init", err)
+		os.Exit(3)
+	}
+	for i := 0; i < 3; i++ {
+		if err := cmbbs.PasswdLock(); err != nil {
+			fmt.Println("peer: lock", err)
+			os.Exit(3)
+		}
+		_ = cmbbs.PasswdUnlock()
+	}
+	os.Exit(0)
+}
+
+// peerPhase: after another process that used the passwd lock has exited, the lock must still
+// exclude: two registrations released into the locked section must not both be inside it.
+func peerPhase() {
+	bin, _ := os.Executable()
+	out, err := exec.Command(bin, "-mode", "peer", "-semkey", strconv.Itoa(env.SemKey), "-out", os.TempDir()).CombinedOutput()
+	if err != nil {
+		i := run.Op("peer 0", "peer-failed", "peer", false)
+		run.Fail(i, "harness:peer", fmt.Sprintf("peer process failed: %v %s", err, out))
+		return
+	}
+	ids := []string{"peerid01", "PEERID01"}
+	for round := 0; round < 3; round++ {
+		reset(0)
+		c := &ctl{tidOf: map[string]int{}, ids: ids}
+		for t := 0; t < 2; t++ {
+			c.gate = append(c.gate, make(chan struct{}, 1))
+			c.events = append(c.events, make(chan event, 8))
+			c.state = append(c.state, "start")
+		}
+		c.started, c.blocked, c.done = make([]bool, 2), make([]bool, 2), make([]bool, 2)
+		cur = c
+		c.release(0) // -> checked
+		c.release(0) // -> locked
+		c.release(1) // -> checked
+		c.gate[1] <- struct{}{} // into semWait while thread 0 holds the lock
+		both := c.await(1, 300*time.Millisecond) && c.state[1] == "locked"
+		verdict := "excluded"
+		if both {
+			verdict = "two-holders"
+		}
+		// the model's answer to this op is the constant "excluded" (mutual_exclusion is a theorem)
+		i := run.Op(fmt.Sprintf("peer %d", round), verdict, "peer", true)
+		if both {
+			run.Fail(i, "sem:two-holders", "after a peer process that had used the passwd lock exited, two registrations were inside the locked section at the same time")
+		}
+		// drain
+		if !both {
+			c.blocked[1] = true
+			c.state[1] = "blocked"
+		}
+		for k := 0; k < 12 && !(c.done[0] && c.done[1]); k++ {
+			c.release(0)
+			c.release(1)
+		}
+		cur = nil
+	}
+}
+
 func main() {
+	if len(os.Args) > 2 && os.Args[1] == "-mode" && os.Args[2] == "peer" {
+		k := 0
+		for i, a := range os.Args {
+			if a == "-semkey" && i+1 < len(os.Args) {
+				k, _ = strconv.Atoi(os.Args[i+1])
+			}
+		}
+		peerMain(k)
+		return
+	}
 	run = hx.Start("C15")
 	defer run.Finish()
 	var err error
@@ -646,4 +723,7 @@ func main() {
 		}
 	}
 	run.Exhaust = exhaustive
+	if os.Getenv("C15_ONLY") == "" {
+		peerPhase()
+	}
 }
